@@ -142,6 +142,12 @@ func (p *IdP) NewCode(spec CodeSpec) string {
 		spec.TokenMode = "ok"
 	}
 	spec.AccessToken = fmt.Sprintf("at-%d-%s", p.ctr, HashStr("at", p.ctr, spec.User))
+	if strings.HasPrefix(spec.User, "longat") {
+		// an access token of a few KiB (JWT access tokens with group claims are that long)
+		n := 1500
+		fmt.Sscanf(spec.User, "longat%d", &n)
+		spec.AccessToken += "." + fmt.Sprintf("%x", GenStream(uint64(p.ctr), n/2))
+	}
 	s := spec
 	p.codes[code] = &s
 	p.tokens[s.AccessToken] = &ATState{User: spec.User, Mode: "valid"}
@@ -260,7 +266,8 @@ func (p *IdP) token(w http.ResponseWriter, r *http.Request) {
 		sc = *spec
 	}
 	p.mu.Unlock()
-	if !ok || sc.TokenMode == "400" {
+	// authorization codes are single-use (RFC 6749 4.1.2)
+	if !ok || sc.TokenMode == "400" || sc.Used > 1 {
 		w.Header().Set("Content-Type", "application/json")
 		w.WriteHeader(400)
 		w.Write([]byte(`{"error":"invalid_grant"}`))
